@@ -83,9 +83,10 @@ theorem map_panic {α β} (f : α → β) (r : Except CErr α) (h : r.map f = .e
   | error e => simpa [Except.map] using h
   | ok a => simp [Except.map] at h
 
-/-- `IntoBytes(n)` panics only above 32 bytes with a truncated guard that lets it through. -/
-theorem intoBytesIn_panic {n : Nat} {x : CTy} (h : intoBytesIn n x = .error .panic) :
-    asU32 n ≤ nativeBytes ∧ 32 < n := by
+/-- `IntoBytes(n)` never panics: the guard keeps `n` within the 32 bytes of a field element. -/
+theorem intoBytesIn_ne_panic (n : Nat) (x : CTy) : intoBytesIn n x ≠ .error .panic := by
+  have hnb := nativeBytes_eq
+  intro h
   unfold intoBytesIn at h
   split at h
   · next v =>
@@ -98,17 +99,17 @@ theorem intoBytesIn_panic {n : Nat} {x : CTy} (h : intoBytesIn n x = .error .pan
         split at h
         · simp at h
         · split at h
-          · next hn => exact ⟨by omega, hn⟩
+          · omega
           · split at h <;> simp at h
       · split at h
-        · next hn => exact ⟨by omega, hn⟩
+        · omega
         · simp at h
   · simp at h
   · split at h <;> simp at h
   · simp at h
 
-/-- An instruction whose immediate fits 32 bits does not panic. -/
-theorem opTypes_ne_panic (i : CInstr) (inp : List CTy) (hn : i.num < 2 ^ 32) :
+/-- No operation panics. -/
+theorem opTypes_ne_panic (i : CInstr) (inp : List CTy) :
     opTypes i inp ≠ .error .panic := by
   intro h
   unfold opTypes at h
@@ -129,11 +130,7 @@ theorem opTypes_ne_panic (i : CInstr) (inp : List CTy) (hn : i.num < 2 ^ 32) :
   · split at h <;> simp at h
   · exact map_ne_panic _ _ (innerProductIn_ne_panic _ _) h
   · split at h <;> simp at h
-  · have hp := map_panic _ _ h
-    have := intoBytesIn_panic hp
-    have h32 : asU32 i.num = i.num := Nat.mod_eq_of_lt hn
-    rw [h32, nativeBytes_eq] at this
-    omega
+  · exact intoBytesIn_ne_panic _ _ (map_panic _ _ h)
   · split at h
     · simp at h
     · exact map_ne_panic _ _ (fromBytesIn_ne_panic _ _) h
@@ -173,7 +170,7 @@ theorem insertMany_ne_panic : ∀ (ns : List Bytes) (ts : List CTy) (m : Mem), i
     · simp
     · exact insertMany_ne_panic ns ts _
 
-theorem compileInstr_ne_panic (m : Mem) (i : CInstr) (hn : i.num < 2 ^ 32) :
+theorem compileInstr_ne_panic (m : Mem) (i : CInstr) :
     compileInstr m i ≠ .error .panic := by
   unfold compileInstr
   split
@@ -187,21 +184,21 @@ theorem compileInstr_ne_panic (m : Mem) (i : CInstr) (hn : i.num < 2 ^ 32) :
       intro hp
       simp only [Except.error.injEq] at hp
       subst hp
-      exact opTypes_ne_panic i _ hn h
+      exact opTypes_ne_panic i _ h
     · exact insertMany_ne_panic _ _ _
 
-theorem compileFrom_ne_panic : ∀ (prog : List CInstr) (m : Mem), (∀ i ∈ prog, i.num < 2 ^ 32) →
+theorem compileFrom_ne_panic : ∀ (prog : List CInstr) (m : Mem),
     compileFrom m prog ≠ .error .panic
-  | [], m, _ => by simp [compileFrom]
-  | i :: rest, m, h => by
+  | [], m => by simp [compileFrom]
+  | i :: rest, m => by
     unfold compileFrom
     split
     · next e he =>
       intro hp
       simp only [Except.error.injEq] at hp
       subst hp
-      exact compileInstr_ne_panic m i (h i (List.mem_cons_self)) he
-    · exact compileFrom_ne_panic rest _ (fun j hj => h j (List.mem_cons_of_mem _ hj))
+      exact compileInstr_ne_panic m i he
+    · exact compileFrom_ne_panic rest _
 
 /-! ### compositionality -/
 
